@@ -218,7 +218,7 @@ fn refusal_case(ctx: &mut Ctx, case_seed: u64, rng: &mut Rng, rs: &RSchema, sche
 				Err(e) => {
 					if refusals.get() == before {
 						ctx.violation(format!("conforming-value-rejected {}", err_sig(&e.to_string())), case_seed, json!({"schema": rs.spell(None).compact(), "history": hist, "error": e.to_string()}));
-						std::mem::forget(w);
+						discard_writer(w);
 						return;
 					}
 					seq.push((v, true));
@@ -231,14 +231,14 @@ fn refusal_case(ctx: &mut Ctx, case_seed: u64, rng: &mut Rng, rs: &RSchema, sche
 				Err(_) if refusals.get() > before => ("finish_block -> sink error".to_owned(), false),
 				Err(e) => {
 					ctx.violation("finish_block-failed", case_seed, json!({"history": hist, "error": e.to_string()}));
-					std::mem::forget(w);
+					discard_writer(w);
 					return;
 				}
 			}
 		};
 		hist.push(when.clone());
 		if !check(ctx, &seq, &hist, need_all, &when) {
-			std::mem::forget(w);
+			discard_writer(w);
 			return;
 		}
 	}
@@ -332,7 +332,7 @@ pub fn run_case15(ctx: &mut Ctx, case_seed: u64) {
 		}};
 	}
 	if !check_sink(ctx, case_seed, &rs, &sink, &ok_vals, true, hook!(w), "build", &describe!()) {
-		std::mem::forget(w);
+		discard_writer(w);
 		return;
 	}
 	let mut last_was_flush = true;
@@ -352,7 +352,7 @@ pub fn run_case15(ctx: &mut Ctx, case_seed: u64) {
 					Err(e) => {
 						hist.push(format!("serialize(valid value) FAILED: {e}"));
 						ctx.violation(format!("conforming-value-rejected {}", err_sig(&e.to_string())), case_seed, describe!()(json!({"value": v.to_json()})));
-						std::mem::forget(w);
+						discard_writer(w);
 						return;
 					}
 				}
@@ -365,7 +365,7 @@ pub fn run_case15(ctx: &mut Ctx, case_seed: u64) {
 				if r.is_ok() {
 					// the corruption happened to be presentable (e.g. string for bytes): then it counts
 					// as written only if it decodes - keep it simple and stop this history
-					std::mem::forget(w);
+					discard_writer(w);
 					return;
 				}
 				failed_any = true;
@@ -391,7 +391,7 @@ pub fn run_case15(ctx: &mut Ctx, case_seed: u64) {
 						ctx.count("failed_values_in_history");
 					}
 					_ => {
-						std::mem::forget(w);
+						discard_writer(w);
 						return;
 					}
 				}
@@ -405,7 +405,7 @@ pub fn run_case15(ctx: &mut Ctx, case_seed: u64) {
 					buf = match serde_avro_fast::to_datum(&Present::new(&rs, v, &pres), buf, &mut c2) {
 						Ok(b) => b,
 						Err(_) => {
-							std::mem::forget(w);
+							discard_writer(w);
 							return;
 						}
 					};
@@ -414,7 +414,7 @@ pub fn run_case15(ctx: &mut Ctx, case_seed: u64) {
 				when = format!("push_serialized({n} values, {} bytes) -> {}", buf.len(), if r.is_ok() { "ok" } else { "err" });
 				if r.is_err() {
 					ctx.violation("push_serialized-failed", case_seed, describe!()(json!({})));
-					std::mem::forget(w);
+					discard_writer(w);
 					return;
 				}
 				ok_vals.extend(vs);
@@ -424,7 +424,7 @@ pub fn run_case15(ctx: &mut Ctx, case_seed: u64) {
 				when = format!("finish_block -> {}", if r.is_ok() { "ok" } else { "err" });
 				if r.is_err() {
 					ctx.violation("finish_block-failed", case_seed, describe!()(json!({})));
-					std::mem::forget(w);
+					discard_writer(w);
 					return;
 				}
 				must_all = true;
@@ -439,7 +439,7 @@ pub fn run_case15(ctx: &mut Ctx, case_seed: u64) {
 		let h = hook!(w);
 		last_was_flush = h.map_or(false, |(n, _, _)| n == 0);
 		if !check_sink(ctx, case_seed, &rs, &sink, &ok_vals, must_all, h, &when, &describe!()) {
-			std::mem::forget(w);
+			discard_writer(w);
 			return;
 		}
 	}
@@ -523,7 +523,7 @@ fn drive<W: std::io::Write>(
 			}
 		};
 		if let Err(e) = r {
-			std::mem::forget(w);
+			discard_writer(w);
 			return Err((e, None));
 		}
 	}
